@@ -819,6 +819,11 @@ def run(ctx):
         cases.append(c)
     ctx.log("generated %d programs (%.1f MB of source)" % (len(cases), sum(len(c["src"]) + sum(map(len, c["mods"].values())) for c in cases) / 1e6))
     res, asts = execute(ctx, cases, "p")
+    for c in cases:
+        if res[c["id"]].get("posscan"):
+            ctx.violation("lookup:history-dependent", "program %d: %s" % (c["id"], res[c["id"]]["posscan"]),
+                          {"case": {k: c[k] for k in ("id", "file", "src", "mods", "exp", "op", "depth", "profile", "features", "infrag", "weight", "refsem", "opts") if k in c}})
+            break
     recs, unjudged = [], {}
     for c in cases:
         r = record(c, res[c["id"]], asts.get(c["id"]))
@@ -889,7 +894,11 @@ def run(ctx):
 def replay(ctx, path):
     d = json.load(open(path))["replay"]
     c = d["case"]
+    c = dict(c, id=(c["id"] // 4) * 4)       # (the position scan runs on ids divisible by 4)
     res, asts = execute(ctx, [c], "r")
+    if res[c["id"]].get("posscan"):
+        print("replay: position lookup depends on earlier lookups: %s" % res[c["id"]]["posscan"])
+        return 1
     r = record(c, res[c["id"]], asts.get(c["id"]))
     if isinstance(r, str):
         print("replay: the program no longer fails as laid out: %s" % r)
